@@ -20,12 +20,19 @@ REGISTRY = {
             'reversed intervals cover the mirrored residues, slice composes, split pieces concatenate to the peptide, every '
             'additive weight (mass) is invariant; slices (cuts not inside an interval), reversed, shifted (no interval wrapping), shuffled '
             'and sorted canonical annotations re-parse to themselves (C01 parse_serialize, modulo dict order / {} which == ignores). '
-            'The model is tied to /repo by differential correspondence over generated '
+            'Mechanical tie for the index arithmetic: harness/translate_reorder.py reads the CURRENT proforma_parser.py with ast and emits '
+            'Generated/ReorderPy.lean for 13 fragments of slice / reverse / shift / split (key re-indexing with its range test, interval keep/drop '
+            'test and clipping, the guards of _nterm_mods/_cterm_mods = None in both branches, n-1-k, [n-e,n-s) with the swap, the rotation bounds, '
+            '(k-n%len)%len, the shifted interval ends, the slice bounds and pop_labile guard of split); Props/C11Gen.lean proves each equal to the '
+            'hand model and transfers slice / reverse / cover theorems to the formulas read off the source. '
+            'The rest of the model is tied to /repo by differential correspondence over generated '
             'annotations (length 0..25, all modification kinds, intervals at start/middle/end/adjacent, every shift in [-2n,2n], '
             'all 0<=i<=j<=n, inplace False/True, and random chains of 2..5 editors applied to one object lineage, compared after every '
             'step with the model and with the same step on a fresh object of the same value) and every clause is also evaluated '
             'directly on the implementation',
-    'note': 'trusted: Lean kernel, axioms propext/Classical.choice/Quot.sound, the correspondence harness and the wire codec, '
+    'note': 'trusted: Lean kernel, axioms propext/Classical.choice/Quot.sound, the subset reader harness/translate_reorder.py (its output '
+            'Generated/ReorderPy.lean is small and committed; fragments outside its subset are listed as untranslated:<name> and have no '
+            'theorem), the correspondence harness and the wire codec, '
             'random.shuffle (its permutation is read from the implementation and fed to the model), the parser/serializer and '
             'mass() are used as black boxes by the oracle (re-parse and mass clauses). Known finding: an interval that wraps '
             'around after a shift cannot be represented and is replaced by another one (KF-C11-shift-interval-wraparound)',
@@ -626,8 +633,14 @@ def build_cases(chk, anns, tier, corr):
 def run(chk):
     tier = chk.tier
     rng = chk.rng
-    chk.lean_build(['PeptVerif.Props.C11', 'PeptVerif.Props.C11Canon'], DRV)
+    from .. import translate_reorder
+    gen_done, gen_unt = translate_reorder.translate(chk)
+    chk.lean_build(['PeptVerif.Props.C11', 'PeptVerif.Props.C11Canon', 'PeptVerif.Props.C11Gen'], DRV)
     chk.trusted += [
+        'harness/translate_reorder.py: the reading of the Python subset (int + - %, comparisons, and/or/not, max/min, len(self.sequence), '
+        'interval attributes, deepcopy = identity, `x is not None` on typed ints = true, lets, tuple swap, if / if-else / continue, the two '
+        'terminal statements) into Lean; translated on this run: ' + ', '.join(gen_done) +
+        ('; NOT translated: ' + ', '.join(f'{k} ({v})' for k, v in gen_unt.items()) if gen_unt else ''),
         'modelled (Model/Reorder.lean): ProFormaAnnotation.slice, reverse, shift, shuffle, sort_residues, split, has_mods, the '
         'dict/list updates they perform; not modelled: copy.deepcopy (identity on values), random.shuffle (its permutation is '
         'read from the implementation through a tagged twin annotation), parse/serialize and mass (black boxes in the oracle), '
@@ -778,7 +791,7 @@ def run(chk):
 
     if tier == 'thorough':
         chk.leanchecker(['PeptVerif.Model.Reorder', 'PeptVerif.Lemmas.Reorder', 'PeptVerif.Lemmas.ReorderCanon', 'PeptVerif.Props.C11',
-                         'PeptVerif.Props.C11Canon'])
+                         'PeptVerif.Props.C11Canon', 'PeptVerif.Generated.ReorderPy', 'PeptVerif.Props.C11Gen'])
     return chk.finish(classify)
 
 
